@@ -226,33 +226,38 @@ let state_wire (w : V.world) (o : V.op) : string =
     else dump in
   if dump = "" then "-" else dump
 
+(* replays the history whose <nops> field is f.(base) on the model; None = agreement on every op,
+   Some d = first divergence; also returns the op kinds seen *)
+let replay (f : string array) (base : int) : string option * string =
+  let n = int_of_string f.(base) in
+  let w = ref V.world0 in
+  let diverged = ref None in
+  let kinds = Buffer.create 16 in
+  (try
+     for k = 0 to n - 1 do
+       let opw = f.(base + 1 + 3 * k) and res = f.(base + 2 + 3 * k) and st = f.(base + 3 + 3 * k) in
+       let o = op_of_wire opw in
+       let (w', r) = V.step !w o in
+       let rw = result_wire w' r in
+       Buffer.add_char kinds opw.[0];
+       let exec_panic = String.length res >= 9 && String.sub res 0 9 = "execpanic" in
+       if rw <> res && not (rw = "exec" && exec_panic) then begin
+         diverged := Some (Printf.sprintf "op%d:%s:result:%s" k opw rw); raise Exit
+       end;
+       (* a panic of the real code leaves state we do not compare further *)
+       if String.length res >= 5 && String.sub res 0 5 = "panic" then raise Exit;
+       let sw = state_wire w' o in
+       if sw <> st then begin
+         diverged := Some (Printf.sprintf "op%d:%s:state:%s" k (String.sub opw 0 (min 12 (String.length opw))) sw); raise Exit
+       end;
+       w := w'
+     done
+   with Exit -> ());
+  (!diverged, Buffer.contents kinds)
+
 let () =
   reg "hist" (fun f ->
       let id = f.(1) in
-      let n = int_of_string f.(3) in
-      let w = ref V.world0 in
-      let diverged = ref None in
-      let kinds = Buffer.create 16 in
-      (try
-         for k = 0 to n - 1 do
-           let opw = f.(4 + 3 * k) and res = f.(5 + 3 * k) and st = f.(6 + 3 * k) in
-           let o = op_of_wire opw in
-           let (w', r) = V.step !w o in
-           let rw = result_wire w' r in
-           Buffer.add_char kinds opw.[0];
-           let exec_panic = String.length res >= 9 && String.sub res 0 9 = "execpanic" in
-           if rw <> res && not (rw = "exec" && exec_panic) then begin
-             diverged := Some (Printf.sprintf "op%d:%s:result:%s" k opw rw); raise Exit
-           end;
-           (* a panic of the real code leaves state we do not compare further *)
-           if String.length res >= 5 && String.sub res 0 5 = "panic" then raise Exit;
-           let sw = state_wire w' o in
-           if sw <> st then begin
-             diverged := Some (Printf.sprintf "op%d:%s:state:%s" k (String.sub opw 0 (min 12 (String.length opw))) sw); raise Exit
-           end;
-           w := w'
-         done
-       with Exit -> ());
-      match !diverged with
-      | Some d -> mismatch id d
-      | None -> ok id ("+" ^ (if String.contains (Buffer.contents kinds) 'X' || String.contains (Buffer.contents kinds) 'Y' then "exec" else "noexec")))
+      match replay f 3 with
+      | (Some d, _) -> mismatch id d
+      | (None, kinds) -> ok id ("+" ^ (if String.contains kinds 'X' || String.contains kinds 'Y' then "exec" else "noexec")))
